@@ -84,15 +84,19 @@ static void run_shapes(Json& js, vh::Rng& rng) {
     // fractional arange with an integral count: start = a/q, step = s/q, c elements
     for (int q : {2, 4, 5, 8, 10, 100, 3, 7}) {
         for (int rep = 0; rep < 60; ++rep) {
-            const long a = rng.range(-3 * q, 3 * q), s = (rng.coin() ? 1 : -1) * rng.range(1, 2 * q), c = rng.range(0, 40);
-            const double start = (double)a / q, step = (double)s / q, stop = (double)(a + c * s) / q;
+            const bool longrun = rep % 6 == 5;   // long ranges end a quarter step short of an element, so the count is unambiguous
+            const long a = rng.range(-3 * q, 3 * q), s = (rng.coin() ? 1 : -1) * rng.range(1, 2 * q), c = longrun ? rng.range(200, 3000) : rng.range(0, 40);
+            const double start = (double)a / q, step = (double)s / q, stop = longrun ? (double)(4 * a + 4 * c * s - s) / (4 * q) : (double)(a + c * s) / q;
             arr_real r;
             const char* o = vh::outcome([&] { r = arange(start, stop, step); });
             std::vector<long> vals;
             bool exact = true;
+            // every element within a few rounding units (of the range's scale) of start + i*step
+            const double scale = std::max(std::fabs(start), std::fabs(stop));
             for (int i = 0; i < r.size(); ++i) {
                 const double t = r[i] * q, rr = std::nearbyint(t);
                 exact = exact && std::fabs(t - rr) <= 1e-9 * std::max(1.0, std::fabs(rr));
+                exact = exact && fabsl((LD)r[i] - ((LD)a + (LD)i * s) / q) <= 4 * EPS * scale;
                 vals.push_back((long)rr);
             }
             js.begin("ArangeF").num("q", q).num("a", a).num("s", s).num("c", c).str("o", o).arr("vals", vals).boolean("exact", exact).end();
